@@ -9,7 +9,9 @@ One execute(plan) = one *history* (first run) followed by one *restart per crash
              already hold a previous stop time, reserved 'edzed-*' keys, one foreign key and
              states of an earlier run; 1-10 external events incl. rejected ones, unknown events,
              parameter errors and one failing handler; then a regular stop - or a failing
-             start() / a failing initialisation instead - or a termination around the first
+             start() / a failing initialisation (a never initialised block, or an init_regular()
+             that raises so that the blocks created after it stay started-but-uninitialised)
+             instead - or a termination around the first
              loop iteration after the start() calls (a block's start() calls circuit.abort(), a
              service task created by start() fails in its first step, abort()/shutdown/cancel
              by the application 0-2 loop iterations after create_task) with states of an
@@ -130,6 +132,7 @@ from __future__ import annotations
 import asyncio
 import copy
 import datetime as dt
+import os
 
 from simkit import seams
 from simkit.runner import Run, PlanError, canon, gen_knobs
@@ -168,7 +171,8 @@ REACH_EXPECTED = ['restored', 'restored_with_timer', 'restored_timer_fired', 'ti
                   'first_run_restored', 'block_removed_in_restart', 'timed_event_rejected',
                   'terminated_before_init', 'interlock_transition_at_restore',
                   'interlock_event_rejected', 'second_termination_in_cleanup',
-                  'slow_cleanup', 'timed_state_saved_after_clock_jump']
+                  'slow_cleanup', 'timed_state_saved_after_clock_jump',
+                  'init_failed_persistent_block_uninitialised']
 ASSUMPTIONS = [
     "expiration is measured as documented ('since the program stop'): against the 'edzed-stop-time' "
     "entry present in the restarted storage; a crash snapshot carries the stop time of the previous "
@@ -531,7 +535,13 @@ def gen(rng, tier, index=0):
         elif how == 'task_fail':
             blocks.insert(rng.randrange(len(blocks) + 1), {'kind': 'badtask', 'name': 'btask'})
     elif scenario == 'init_fail':
-        blocks.insert(rng.randrange(len(blocks) + 1), {'kind': 'noinit', 'name': 'noinit'})
+        if rng.random() < 0.5:
+            blocks.insert(rng.randrange(len(blocks) + 1), {'kind': 'noinit', 'name': 'noinit'})
+        else:
+            # an initialisation routine fails: the blocks created after it are started, but
+            # (unless restored from the storage) still uninitialised when the simulation ends
+            blocks.insert(rng.choice([0, 0, rng.randrange(len(blocks) + 1)]),
+                          {'kind': 'badinit', 'name': 'badinit'})
     # ---- initial storage
     initial = {'stop_age': rng.choice([None, None, 5.0, 100.0, 5000.0, -50.0]),
                'stop_invalid': rng.random() < 0.08,
@@ -656,6 +666,12 @@ def first_output(data):
     return data.get('previous') is edzed.UNDEF
 
 
+class BadInit(edzed.SBlock):
+    """Its initialisation routine fails."""
+    def init_regular(self):
+        raise Injected('init_regular() failed')
+
+
 class NoInit(edzed.SBlock):
     """Never initialised: the circuit initialisation fails."""
 
@@ -687,6 +703,7 @@ class Sim:
         self.depth = {}
         self.origin = {}
         self.failed = {}            # name -> journal length when its handler failed
+        self.failed_origin = {}     # name -> origin of the event whose handler failed
         self.acked = {}             # name -> states the block had at event boundaries
         self.ack_log = {}           # name -> [(loop ns, state)]
         self.fired_log = {}         # name -> [(loop ns, timer fired but still reported)]
@@ -745,6 +762,8 @@ class Sim:
             return BadStart(name, x_sim=self)
         if kind == 'noinit':
             return NoInit(name)
+        if kind == 'badinit':
+            return BadInit(name)
         if kind == 'abortstart':
             return AbortStart(name)
         if kind == 'badtask':
@@ -1013,6 +1032,7 @@ class Sim:
                 self.check_block(name, 'after-event')
         elif name not in self.failed:
             self.failed[name] = len(self.storage.journal)
+            self.failed_origin[name] = origin
             self.R.fired('reach:failed_handler')
         if d == 0 and self.verbose:
             self.R.log('ev', self.tag, name, origin, canon(etype), 'exc', canon(err), harmless)
@@ -1079,6 +1099,17 @@ class Sim:
             if not b['sync_state'] and ph == 'run':
                 self.violate('C06/journal/sync-state-off-written',
                              f"{name}: sync_state=False, but {canon(value)} was saved while running")
+            if (b['kind'] in pm.CAL_KINDS and not self.acked[name]
+                    and not self.blocks[name].is_initialized()):
+                # TimeDate/TimeSpan.get_state() did not refuse an uninitialised block: after a
+                # failed initialisation the empty configuration was saved as its state (and had
+                # precedence over the constructor arguments at the next start): finding F26,
+                # repaired in /repo
+                R.fired('uninitialised_calendar_block_saved')
+                self.violate('C06/journal/uninitialised-block-saved',
+                             f"{name} ({b['kind']}) was started but never initialised, yet "
+                             f"{canon(value)} was saved as its state ({ph})")
+                continue
             if not any(pm.state_eq(b['kind'], value, s) for s in self.acked[name]):
                 self.violate('C06/journal/unacknowledged-state',
                              f"{name}: saved value {canon(value)} ({ph}) is not a state the block "
@@ -1461,9 +1492,12 @@ def restart(R, plan, k, snap, wall_us, stats, fired_names=()):
             if not started:
                 if garbage_key is not None:
                     R.fired('garbage_start_failed')
-                elif sim.failed:
+                elif sim.failed and all(
+                        sim.failed_origin.get(n) == 'timer' or sim.specs[n].get('kick')
+                        for n in sim.failed):
                     # a restored timer fired within microseconds of the start and the generated
-                    # FSM failed in its own timed event before wait_init() could return
+                    # FSM failed in its own timed event before wait_init() could return (or its
+                    # interlock event failed); a failing restoration is NOT excused
                     R.fired('restart_ended_by_fsm_error')
                 else:
                     sim.violate(f"C06/restart-failed/{type(circuit.error).__name__}",
@@ -1685,6 +1719,9 @@ def execute(plan, trace=False):
                     run.fired('reach:terminated_before_init')
                 else:
                     run.fired('reach:init_failed')
+                    if any(sim.specs[n]['persistent'] and not sim.blocks[n].is_initialized()
+                           for n in sim.real_names()):
+                        run.fired('reach:init_failed_persistent_block_uninitialised')
                 run.log('start-up', sim.start_raised, untouched)
                 return
             sim.ack_all()
